@@ -414,7 +414,14 @@ func runHarness(prog *ssa.Program, def harnessDef, tier int) (res *HarnessResult
 	h := newHarnessRun(def.fn.Name())
 	h.tier = tier
 	h.directives = def.directives
-	h.deadline = start.Add(time.Duration(*flagBudget) * time.Second)
+	budget := *flagBudget
+	// a harness may ask for a longer wall-clock budget than the default (//verif:budget <seconds>)
+	if v := def.directives["budget"]; len(v) > 0 {
+		if n, err := strconv.Atoi(strings.Fields(v[len(v)-1])[0]); err == nil && n > budget {
+			budget = n
+		}
+	}
+	h.deadline = start.Add(time.Duration(budget) * time.Second)
 	e.h = h
 	if v := def.directives["unwind"]; len(v) > 0 {
 		f := strings.Fields(v[len(v)-1])
